@@ -105,7 +105,7 @@ def install(path: str):
             out = "timeout"
         else:
             out = "unknown"
-        emit({"ev": "prep", "mid": mid, "outcome": out, "budget": preprocessing_timeout})
+        emit({"ev": "prep", "mid": mid, "outcome": out, "budget": preprocessing_timeout, "ptime_ms": es["preprocessing_time"]})
         return r
 
     o_gen = Inf.general_inference
